@@ -117,6 +117,7 @@ class State(object):
         self.trace = []
         self.bases = {}           # heap key -> (array that was last havocked / initial, allocation bound then)
         self.havoc_vals = []      # (inner array of a havocked list / dict, allocation bound then)
+        self.marks = {}           # named snapshots of this path (e.g. 'exit0': the state in which loop 0 was left)
 
     def fork(self):
         s = State.__new__(State)
@@ -129,6 +130,7 @@ class State(object):
         s.trace = list(self.trace)
         s.bases = dict(self.bases)
         s.havoc_vals = list(self.havoc_vals)
+        s.marks = dict(self.marks)
         return s
 
     def assume(self, cond):
@@ -651,6 +653,14 @@ class Engine(object):
                 return SV(FLOAT, f_div(f_i2f(x), f_i2f(y)))
             if isinstance(op, ast.BitAnd) or isinstance(op, ast.BitOr) or isinstance(op, ast.LShift):
                 raise Unsupported('bit operation')
+        if isinstance(op, ast.Add) and ((ta == VAL and tb in (STR, BYTES)) or (tb == VAL and ta in (STR, BYTES))):
+            # a dynamically typed slot that holds text here (anything else is a TypeError in Python)
+            other = tb if ta == VAL else ta
+            if ta == VAL:
+                a = self.as_text(ctx, st, a, other)
+            else:
+                b = self.as_text(ctx, st, b, other)
+            return SV(other, z3.Concat(a.z, b.z))
         if ta in (STR, BYTES) and tb in (STR, BYTES) and isinstance(op, ast.Add):
             return SV(ta, z3.Concat(a.z, b.z))
         if ta in (STR, BYTES) and tb == INT and isinstance(op, ast.Mult):
@@ -688,6 +698,14 @@ class Engine(object):
         if isinstance(ta, TupleT) and isinstance(tb, TupleT) and isinstance(op, ast.Add):
             return self.mk_tuple(self.tuple_items(a) + self.tuple_items(b))
         raise Unsupported('binop %s on %r, %r' % (type(op).__name__, ta, tb))
+
+    def as_text(self, ctx, st, v, ty=STR):
+        """narrow a Val to its text (bytes) variant; Python raises TypeError for the other variants"""
+        if v.ty != VAL:
+            return v
+        pred, acc = (Val.is_vtxt, Val.tval) if ty == STR else (Val.is_vbyt, Val.bval)
+        self.safe(ctx, st, pred(v.z), 'TypeError', 'text operation on a non-text value')
+        return SV(ty, acc(v.z))
 
     def str_repeat(self, s, n):
         ns = z3.simplify(n)
@@ -1437,6 +1455,11 @@ class Engine(object):
             return self.read_field(ctx, st, obj, attr)
         if t in (STR, BYTES) or isinstance(t, (ListT, DictT)):
             return SV(ANYFUNC, ('bound', obj, attr))
+        if t == VAL and attr in ('start', 'stop', 'step') and 'PySlice' in self.classes:
+            # a dynamically typed slot used as a slice object: anything else has no such attribute
+            self.safe(ctx, st, z3.And(Val.is_vref(obj.z), self.typeis(st, Val.rval(obj.z), 'PySlice')), 'AttributeError', 'slice attribute of a non-slice')
+            st.assume(Val.rval(obj.z) > 0)       # vref(0) does not exist: None is vnone (to_val)
+            return self.read_field(ctx, st, SV(Ref('PySlice'), Val.rval(obj.z)), attr)
         if t == VAL:
             return SV(ANYFUNC, ('bound', obj, attr))
         if isinstance(t, TupleT):
